@@ -695,9 +695,25 @@ class Gen:
         if self.chance('p_version_change'):
             names = sorted(f['name'] for f in funcs.values())
             name = rng.choice(names)
+            old = prev.get(name)
             v[name] = rng.choice([1, 2, 'v', None, [1], {'a': 1}, 1.0, True,
                                   0, False, '', [], {}, 0.0, [None],
-                                  {'a': None}, 2 ** 60, '\u00e9', -1])
+                                  {'a': None}, 2 ** 60, '\u00e9', -1,
+                                  {'a': None, 'r': 1}, {'r': 1, 'b': None}])
+            if isinstance(old, dict) and old and rng.random() < 0.5:
+                # a near miss of the previous value: one key renamed (also a
+                # key whose value is None), one value changed, key order
+                k = rng.choice(sorted(old))
+                near = dict(old)
+                r = rng.random()
+                if r < 0.5:
+                    near.pop(k)
+                    near[k + 'x'] = rng.choice([3, None, old[k]])
+                elif r < 0.8:
+                    near[k] = [old[k]]
+                else:
+                    near = dict(reversed(list(old.items())))
+                v[name] = near
             if v[name] is None and rng.random() < 0.5:
                 v.pop(name)
         return v
